@@ -15,6 +15,8 @@ DECLS = [
     D('sec', 'sec', F_MULTI | F_TITLE, sub=SUB_SEC),
     D('msec', 'sec', F_MULTI, sub=[D('y', 'int', default=0)]),
     D('one', 'sec', 0, sub=[D('z', 'int', default=1)]),
+    # "simple" options: the value lives in a variable of the application
+    D('si', 'int', simple=True), D('ss', 'str', simple=True), D('sf', 'float', simple=True), D('sb', 'bool', simple=True),
 ]
 NAMES = [d.name for d in DECLS]
 
@@ -45,12 +47,21 @@ OPS = [
     # the new value aliases a value the option already stores
     ['selfstr', 's', 0, 0], ['selfstr', 'sl', 0, 1], ['selfstr', 'sl', 1, 2], ['selfstr', 'sl', 0, 0],
 ]
+NCORE = len(OPS)      # enumerated exhaustively to depth 3; the calls below to depth 2 and in the random sequences
+OPS += [
+    # simple options: index 0 stores into the application's variable, any other index is refused
+    ['set', 'int', 'si', 7, None], ['set', 'int', 'si', 8, 1], ['set', 'str', 'ss', 'x', None], ['set', 'str', 'ss', 'y', 1], ['set', 'float', 'sf', 2.5, None],
+    ['set', 'bool', 'sb', 1, None], ['optset', 'int', 'si', 9, 0], ['optset', 'int', 'si', 9, 2], ['optset', 'str', 'ss', 'w', 0], ['set', 'str', 'si', 'x', None],
+    # titles containing the path syntax's own '=' (an unquoted title in a path runs to the next '|')
+    ['addtsec', 'sec', 'env=prod'], ['addtsec', 'sec', 'env'], ['rmsec', 'sec=env=prod'], ['rmsec', 'sec=env'], ['set', 'int', 'sec=env=prod|x', 4, None],
+    ['set', 'int', 'sec=env|x', 5, None], ['rmtsec', 'sec', 'env=prod'],
+]
 
 RULE = ('all call sequences up to depth N over %d concrete calls (typed setters at index 0/1/2/3, setlist, addlist, setmulti good/bad, setopt, '
         'addtsec new/existing/wrong type, rmnsec/rmtsec/rmsec present/absent/out of range, wrong-type, index>0 on scalar, unknown name, by-path names) '
-        'from the initial state and from parsed states, plus random sequences of length 30; after every call the return value and the full tree '
+        'from the initial state and from parsed states, plus random sequences of length 30; %d more calls (simple options at index 0 and > 0, titles containing "=" addressed by path) to depth 2 and sampled at depth 3; after every call the return value and the full tree '
         '(sizes, values, titles, modified flags) are compared with model_store. non-trivial: the sequence contains >= 1 successful mutation; '
-        'distinct = (start state, op sequence)' % len(OPS))
+        'distinct = (start state, op sequence)' % (NCORE, len(OPS) - NCORE))
 
 STARTS = {
     'init': None,
@@ -131,7 +142,7 @@ def judge(spec, events, death):
     if STARTS[spec['start']] and evs[1]['rc'] != 0:
         v.bad('start-state-rejected:' + spec['start'], 'start text was rejected')
         return v
-    d0 = schema.diff_sec(model, evs[hdr - 1]['tree'])
+    d0 = schema.diff_sec(model, evs[hdr - 1]['tree'], simple_mod=True)
     if d0:
         v.bad('start-state:' + spec['start'], 'start state differs from the model: %s' % d0[:3])
         return v
@@ -159,7 +170,7 @@ def judge(spec, events, death):
             v.bad('%s(%s):return' % (op[0], oname), 'start %s, after %s: %r returned %s, the store model says %s' % (
                 spec['start'], ops[:n], op, r['rc'], exp))
             break
-        diffs = schema.diff_sec(model, dmp['tree'])
+        diffs = schema.diff_sec(model, dmp['tree'], simple_mod=True)
         if diffs:
             kind = 'modflag' if all('modified flag' in d for d in diffs) else 'state'
             v.bad('%s(%s):%s:%s' % (op[0], oname, kind, 'refused' if exp else 'ok'), 'start %s, after %s: %r -> %s' % (spec['start'], ops[:n], op, diffs[:3]))
@@ -175,8 +186,14 @@ def judge(spec, events, death):
 def gen(tier, seed):
     n = len(OPS)
     for d in range(1, 4):
-        for seq in itertools.product(range(n), repeat=d):
+        for seq in itertools.product(range(n if d < 3 else NCORE), repeat=d):
             yield {'start': 'init', 'ops': list(seq)}
+    # depth 3 with at least one of the later calls: sampled
+    rng3 = core.seeded_rng(seed, 'c09x')
+    for _ in range(20000 if tier == 'quick' else 300000):
+        seq = [rng3.randrange(n) for _ in range(3)]
+        seq[rng3.randrange(3)] = rng3.randrange(NCORE, n)
+        yield {'start': 'init', 'ops': seq}
     if tier != 'quick':
         # depth 4 over the 64 core calls (the by-option / alias / case variants are covered to depth 3 above)
         for seq in itertools.product(range(64), repeat=4):
@@ -184,7 +201,7 @@ def gen(tier, seed):
     pdepth = 2 if tier == 'quick' else 3
     for st in ('p1', 'p2', 'p3'):
         for d in range(1, pdepth + 1):
-            for seq in itertools.product(range(n), repeat=d):
+            for seq in itertools.product(range(n if d < 3 else NCORE), repeat=d):
                 yield {'start': st, 'ops': list(seq)}
     rng = core.seeded_rng(seed, 'c09')
     for _ in range(400 if tier == 'quick' else 20000):
